@@ -3,15 +3,38 @@ import TwistedModel.App.ClientService
 Driver glue for C58.
   `C58 <a> <b> <event> <event> …`   retry policy n ↦ a*n+b; events as in harness/corr/C58.py:
       start stop when:- when:<k> csucc:plain|ok|raise|defer cfail prepok prepfail drop:<i> adv:<t>
+      drop:<i>:<prog>   the application protocol's connectionLost handler runs <prog>: letters w (whenConnected()),
+                        l (whenConnected(1)), m (whenConnected(2)), S (startService), T (stopService), then optionally a
+                        final x or b (the handler raises an Exception / a BaseException subclass)
+      a trailing `!` on stop / when:… (the Deferred's consumer callback raises) is invisible to the service
+      a trailing `^` on stop / when:… : the consumer's callback calls startService() when the Deferred fires
   → per event `<outcome>/<ms>;<running>;<conns>;<att>;<timer>;<failedAttempts>;<waiters>;<stops>` joined by `|`
-    (`-` for an empty history); outcome `ok|skip|dup|!NoTransition`; conns one letter per open connection
+    (`-` for an empty history); outcome `ok|skip|dup|!NoTransition|!H` (`!H`: the application handler's own exception propagated); conns one letter per open connection
     (`o` open, `c` closing); att `p` pending endpoint attempt / `r` pending prepareConnection Deferred;
     waiters per whenConnected Deferred in call order `p|c<conn>|f|x`; stops per stopService Deferred `p|d`.
 -/
 namespace Twisted.Drv.C58
 open Twisted.App.ClientService
 
-def decEv (s : String) : Option Ev :=
+def decActs : List Char → Option (List Act × Bool)
+  | [] => some ([], false)
+  | ['x'] => some ([], true)
+  | ['b'] => some ([], true)
+  | c :: cs =>
+    let a : Option Act := match c with
+      | 'w' => some (.when none) | 'l' => some (.when (some 1)) | 'm' => some (.when (some 2))
+      | 'S' => some .start | 'T' => some .stop | _ => none
+    match a, decActs cs with
+    | some a, some (as, r) => some (a :: as, r)
+    | _, _ => none
+
+def stripBang (s : String) : String := if s.endsWith "!" then String.ofList s.toList.dropLast else s
+
+def stripHat (s : String) : String := if s.endsWith "^" then String.ofList s.toList.dropLast else s
+
+def decEv (s0 : String) : Option Ev :=
+  let s := stripBang s0
+  if s0.endsWith "!" && !(s == "stop" || s.startsWith "when:") then none else
   match s.splitOn ":" with
   | ["start"] => some .start
   | ["stop"] => some .stop
@@ -25,8 +48,19 @@ def decEv (s : String) : Option Ev :=
   | ["prepok"] => some .prepok
   | ["prepfail"] => some .prepfail
   | ["drop", i] => i.toNat?.map .drop
+  | ["drop", i, prog] =>
+    if prog.isEmpty then none else
+    match i.toNat?, decActs prog.toList with
+    | some i, some (acts, r) => some (.dropH i acts r)
+    | _, _ => none
   | ["adv", t] => t.toNat?.map .adv
   | _ => none
+
+def decEvC (s0 : String) : Option EvC :=
+  let s := stripHat s0
+  if s0.endsWith "^" then
+    if s == "stop" || s.startsWith "when:" then (decEv s).map fun e => ⟨e, true⟩ else none
+  else (decEv s).map fun e => ⟨e, false⟩
 
 def msName : MS → String
   | .init => "Init" | .connecting => "Connecting" | .waiting => "Waiting" | .connected => "Connected"
@@ -51,14 +85,14 @@ def showSnap (s : St) : String :=
     toString s.failed, orDash w, orDash st]
 
 def showOutcome : Outcome → String
-  | .ok => "ok" | .skip => "skip" | .dup => "dup" | .rejected => "!NoTransition"
+  | .ok => "ok" | .skip => "skip" | .dup => "dup" | .rejected => "!NoTransition" | .raised => "!H"
 
 def handle (args : List String) : String :=
   match args with
   | a :: b :: evs =>
-    match a.toNat?, b.toNat?, evs.mapM decEv with
+    match a.toNat?, b.toNat?, evs.mapM decEvC with
     | some a, some b, some evs =>
-      let tr := exec (fun n => a * n + b) init evs
+      let tr := execC (fun n => a * n + b) ⟨[], []⟩ init evs
       if tr.isEmpty then "-" else "|".intercalate (tr.map fun (s, o) => showOutcome o ++ "/" ++ showSnap s)
     | _, _, _ => "bad-op"
   | _ => "bad-op"
